@@ -445,6 +445,19 @@ class Sim:
                     return "skip"
                 W.do(changes)
                 out.stats["probe_move_module_done"] += 1
+            elif a == "c_to_package":
+                if self.pending or not isfile(st["p"]) or not st["p"].endswith(".py") or st["p"].endswith("__init__.py"):
+                    return "skip"
+                if st["p"][:-3] in t:
+                    return "skip"
+                from rope.refactor import topackage
+
+                try:
+                    changes = topackage.ModuleToPackage(W, W.get_resource(st["p"])).get_changes()
+                except exceptions.RopeError:
+                    return "skip"
+                W.do(changes)
+                out.stats["probe_module_to_package_done"] += 1
             elif a == "c_undo":
                 if self.pending or not W.history.undo_list or not self._applicable(W.history.undo_list[-1], "undo"):
                     return "skip"
@@ -725,7 +738,7 @@ class CoherenceEngine(Engine):
             return "".join(rng.choice(SNIPPETS) for _ in range(n))
 
         if actor == "client":
-            k = rng.choice(["write"] * 4 + ["create_module"] * 2 + ["create_package", "move", "move", "remove", "refactor", "refactor", "refactor", "move_module", "undo", "redo"])
+            k = rng.choice(["write"] * 4 + ["create_module"] * 2 + ["create_package", "move", "move", "remove", "refactor", "refactor", "refactor", "move_module", "to_package", "undo", "undo", "redo"])
             if k == "write" and pyfiles:
                 p = rng.choice(pyfiles)
                 cur = t[p].decode("utf-8", "replace")
@@ -753,6 +766,8 @@ class CoherenceEngine(Engine):
                         "occ": rng.randrange(3), "new": rng.choice(gen.NEW_IDENTS) + str(rng.randint(0, 99)), "dt": dt}
             if k == "move_module" and pyfiles and pkgs:
                 return {"a": "c_move_module", "p": rng.choice(pyfiles), "dest": rng.choice(pkgs), "dt": dt}
+            if k == "to_package" and pyfiles:
+                return {"a": "c_to_package", "p": rng.choice(pyfiles), "dt": dt}
             if k in ("undo", "redo"):
                 return {"a": "c_" + k, "dt": dt}
             return {"a": "q_subset", "which": ["files"], "dt": dt}
